@@ -45,7 +45,16 @@ check('C09', 'model_checking',
       'TLA+ case table (TLC) + trace validation of observed fault responses + model checking of the pipeline status table',
       'DESIGN.md 4/C09')
 
-PENDING = ['C01', 'C02', 'C03', 'C04', 'C05', 'C06', 'C07', 'C08', 'C10', 'C11', 'C12', 'C15', 'C16', 'C17', 'C18']
+check('C10', 'model_checking',
+      'SpynePipeline.tla is model-checked for every malformation class x family x transport (malformed => Client-family fault, '
+      'no user code, no escape, termination). A closed deterministic corpus (45 hostile leaf texts at each of 14 typed fields, '
+      'every 7th-byte truncation, 11 structural operators at every XML node, 14 alien value kinds at every dict path, flat-key '
+      'abuse, fixed pseudo-random bytes) x 7 input families x validator {soft, None} x {WsgiApplication, ServerBase} is sent to '
+      'the real code; every exchange is recorded as a merged history and TLC evaluates the C10 outcome clause on it.',
+      'TLA+ model checking (TLC) + trace validation of a closed structure-aware mutation corpus',
+      'DESIGN.md 4/C10')
+
+PENDING = ['C01', 'C02', 'C03', 'C04', 'C05', 'C06', 'C07', 'C08', 'C11', 'C12', 'C15', 'C16', 'C17', 'C18']
 
 def main():
     import importlib
